@@ -994,3 +994,64 @@ m('c18-count-digits-out-of-step', ['C18', 'C07'], 'count_decimal_digits_uint:num
 m('c15-to-i128-early-none-38', ['C15'], 'to_i128:sign=Plus,scale=-38', [
   ('src/impl_num.rs', "            Sign::Plus | Sign::Minus => self.to_owned_with_scale(0).int_val.to_i128(),", "            Sign::Plus | Sign::Minus if self.scale <= -38 => None,\n            Sign::Plus | Sign::Minus => self.to_owned_with_scale(0).int_val.to_i128(),")],
   'values with scale -38 are declared out of range although 1e38 fits an i128')
+
+# ---- root kernels: parity of the shifted scale, sticky digit, exactness flag (defects repaired in 7a92e02 / 47aa332 / e37acb7)
+m('c10-sqrt-parity-original', ['C10'], 'root-shape[parity]', [
+  ('src/arithmetic/sqrt.rs', """    let exponent = shift + u64::from((i128::from(scale) + i128::from(shift)).is_odd());""",
+   """    let exponent = shift + u64::from(scale_diff.is_odd());""")],
+  'the original parity correction (digit count - scale): sqrt(4.00000000000000000000) at p=5 gives 6.3246 (fixed in 7a92e02)')
+m('c10-sqrt-parity-ignores-shift', ['C10'], 'root-shape[parity]', [
+  ('src/arithmetic/sqrt.rs', """    let exponent = shift + u64::from((i128::from(scale) + i128::from(shift)).is_odd());""",
+   """    let exponent = shift + u64::from(i128::from(scale).is_odd());""")],
+  'parity correction from the scale alone: wrong whenever the padding is odd')
+m('c10-sqrt-parity-even-test', ['C10'], 'root-shape[parity]', [
+  ('src/arithmetic/sqrt.rs', """    let exponent = shift + u64::from((i128::from(scale) + i128::from(shift)).is_odd());""",
+   """    let exponent = shift + u64::from((i128::from(scale) + i128::from(shift)).is_even());""")],
+  'parity correction inverted')
+m('c10-sqrt-sticky-original', ['C10'], 'radicand-exactness', [
+  ('src/arithmetic/sqrt.rs', """    if &sqrt_digits * &sqrt_digits != radicand {
+        // the root is inexact: a sticky digit below the guard digits keeps
+        // an all-zero (or exactly-half) tail from being rounded as if exact
+        sqrt_digits = sqrt_digits * 10u8 + 1u8;
+    }
+""", """    let _ = &mut sqrt_digits;
+""")],
+  'the original: floor root rounded on its own (fixed in 47aa332)')
+m('c10-sqrt-sticky-inverted', ['C10'], 'root-shape[sticky]', [
+  ('src/arithmetic/sqrt.rs', """    if &sqrt_digits * &sqrt_digits != radicand {""", """    if &sqrt_digits * &sqrt_digits == radicand {""")],
+  'sticky digit appended to exact roots instead of inexact ones')
+m('c10-sqrt-sticky-digit-zero', ['C10'], 'root-shape[sticky]', [
+  ('src/arithmetic/sqrt.rs', """        sqrt_digits = sqrt_digits * 10u8 + 1u8;""", """        sqrt_digits = sqrt_digits * 10u8 + 0u8;""")],
+  'the appended digit is zero: carries no information')
+m('c10-sqrt-sticky-wrong-operand', ['C10'], 'radicand-exactness', [
+  ('src/arithmetic/sqrt.rs', """    if &sqrt_digits * &sqrt_digits != radicand {""", """    if &sqrt_digits * &sqrt_digits != *n {""")],
+  'root squared compared with the unshifted operand')
+m('c10-sqrt-sticky-after-count', ['C10'], 'root-shape[counted]', [
+  ('src/arithmetic/sqrt.rs', """    if &sqrt_digits * &sqrt_digits != radicand {
+        // the root is inexact: a sticky digit below the guard digits keeps
+        // an all-zero (or exactly-half) tail from being rounded as if exact
+        sqrt_digits = sqrt_digits * 10u8 + 1u8;
+    }
+""", """    let inexact = &sqrt_digits * &sqrt_digits != radicand;
+"""),
+  ('src/arithmetic/sqrt.rs', """    result_scale += count_decimal_digits_uint(&sqrt_digits).saturating_sub(prec);
+""", """    result_scale += count_decimal_digits_uint(&sqrt_digits).saturating_sub(prec);
+    if inexact {
+        sqrt_digits = sqrt_digits * 10u8 + 1u8;
+    }
+""")],
+  'sticky digit appended after the digits were counted for the scale: result ten times too large')
+m('c11-cbrt-exact-flag-original', ['C11'], 'root-shape[exact-flag]', [
+  ('src/arithmetic/cbrt.rs', """            trailing_digits.iter().all(Zero::is_zero) && root_digits.pow(3u32) == *integer_digits""",
+   """            trailing_digits.iter().all(Zero::is_zero)""")],
+  'the original: flag from the trimmed digits alone (fixed in e37acb7)')
+m('c11-cbrt-exact-flag-or', ['C11'], 'root-shape[exact-flag]', [
+  ('src/arithmetic/cbrt.rs', """            trailing_digits.iter().all(Zero::is_zero) && root_digits.pow(3u32) == *integer_digits""",
+   """            trailing_digits.iter().all(Zero::is_zero) || root_digits.pow(3u32) == *integer_digits""")],
+  'flag is a disjunction')
+m('c11-cbrt-exact-flag-square', ['C11'], 'root-shape[exact-flag]', [
+  ('src/arithmetic/cbrt.rs', """root_digits.pow(3u32) == *integer_digits""", """root_digits.pow(2u32) == *integer_digits""")],
+  'square instead of cube in the exactness test')
+m('c11-cbrt-exact-flag-negated', ['C11'], 'root-shape[exact-flag]', [
+  ('src/arithmetic/cbrt.rs', """root_digits.pow(3u32) == *integer_digits""", """root_digits.pow(3u32) != *integer_digits""")],
+  'exactness test negated')
